@@ -1765,6 +1765,15 @@ def rule_py_offset_units(rep, floor=2):
                         k += 1
                         inc = ast.unparse(a_.value)
                         r.check(inc == "len(%s)" % T, "%s:%s:%s#%d" % (rel, fd.name, acc, k), m.where(a_), "%s in %s adds %s to a position found in %s but advances it by `%s`, not len(%s)" % (fd.name, rel, acc, T, inc, T), detail="advances by len(%s)" % T)
+                        # ... and on every iteration of the loop that binds T, not only under a condition on the data
+                        chain = []
+                        for p_ in pf.parent_chain(a_):
+                            if p_ is loop:
+                                break
+                            chain.append(p_)
+                        cond = [p_ for p_ in chain if isinstance(p_, (ast.If, ast.Try, ast.While))]
+                        r.check(not cond, "%s:%s:%s#%d:every-iteration" % (rel, fd.name, acc, k), m.where(a_), "%s in %s advances the running offset %s only under a condition (line %d): when the condition fails, every later position is short by len(%s)" % (
+                            fd.name, rel, acc, cond[0].lineno if cond else 0, T), detail="advanced on every iteration")
     return r.done()
 
 
